@@ -7,6 +7,10 @@ COMMON_TRUSTED = [
 ]
 
 PROPS = {
+    "GEN": {  # not a property: the translator-validation stream on its own (used while developing)
+        "modules": ["Capnp.Gen.Core"], "gen": True, "rule": "every go2lean target x boundary/random argument tuples", "trusted": [],
+        "shards": {"quick": 1, "thorough": 8},
+    },
     "C13": {
         "modules": ["Capnp.Props.C13"],
         "gen": False,
